@@ -31,7 +31,7 @@ def run_one(m):
                 return dict(id=m["id"], status="STALE", detail="pattern matches %d times in %s" % (n, ed["file"]))
             s = s.replace(ed["old"], ed["new"])
             open(p, "w", encoding="utf-8").write(s)
-        env = dict(os.environ, VERIF_TIER="quick", VERIF_NO_BATTERY="1", VERIF_REPO=repo, VERIF_EVIDENCE_DIR=os.path.join(tmp, "ev"), VERIF_REPLAY_DIR=os.path.join(tmp, "rp"))
+        env = dict(os.environ, VERIF_TIER="quick", VERIF_NO_BATTERY="1", VERIF_REPO=repo, VERIF_CACHE_DIR=os.path.join(tmp, "cache"), VERIF_EVIDENCE_DIR=os.path.join(tmp, "ev"), VERIF_REPLAY_DIR=os.path.join(tmp, "rp"))
         res = {}
         for pid in m["props"]:
             r = subprocess.run([os.path.join(V, "checks/check"), pid, "--tier", "quick"], env=env, capture_output=True, text=True)
